@@ -26,6 +26,7 @@ def run(ctx):
     # 1. TLC generates the inputs: every behaviour of length 1 and 2 (thorough) / 1 (quick) and simulated ones of length 8
     r1, b1 = behaviours(ctx, "MC_RobustEnv_1.cfg")
     r2, b2 = behaviours(ctx, "MC_RobustEnv.cfg")
+    b2_all = list(b2)
     if ctx.quick:
         # the quick tier replays a seeded sample of the complete length-2 product
         import random
@@ -42,6 +43,10 @@ def run(ctx):
             bs.append(b)
     if not b1 or not bs:
         raise vlib.Inconclusive("TLC exported no behaviours (len1=%d sim=%d)" % (len(b1), len(bs)))
+    # behaviours of length 2 that every sample contains: a commit that hangs for good, then the coordination service gone
+    # or every SQL call failing (the error paths of fencing are taken tick after tick while the final state is held)
+    pinned = [b for b in b2_all if b[0].get("var") == "commit" and b[0].get("val") == "stuck" and b[1].get("var") in ("zkerr", "sqlerr")]
+    b2 = b2 + [b for b in pinned if b not in b2]
     allb = [("one/%d" % i, b) for i, b in enumerate(b1)] + [("two/%d" % i, b) for i, b in enumerate(b2)] + \
            [("sim/%d/%d" % (ctx.seed, i), b) for i, b in enumerate(bs)]
     bf = os.path.join(ctx.sub("beh"), "behaviours.ndjson")
@@ -60,6 +65,10 @@ def run(ctx):
             site = re.sub(r"0x[0-9a-f]+", "", row["panics"][0])[:160]
             sig = {"panic": site}
             what = "recovered panic %r while replaying %s (%s)" % (row["panics"][0][:200], json.dumps(sc.get("acts")), row["scn"])
+        elif name == "C20_NoLeakOnErrorPath":
+            sig = {"errpath": row["fn"]}
+            what = ("%d failing calls of %s left %d goroutines behind (%d before, %d after; %d of the calls failed) (%s)"
+                    % (row["calls"], row["fn"], row["g1"] - row["g0"], row["g0"], row["g1"], row["failed"], row["scn"]))
         else:
             sig = {"final": row["final"]}
             what = ("holding the final state for 68 rounds: goroutines %s, open MySQL connections %s (minima over rounds 8-12, 36-40, "
